@@ -39,12 +39,11 @@ double __CPROVER_uninterpreted_subd (double, double);
 double __CPROVER_uninterpreted_muld (double, double);
 double __CPROVER_uninterpreted_divd (double, double);
 double __CPROVER_uninterpreted_negd (double);
-#define IM_SEL(T, f, d) _Generic ((T) 0, float : f, double : d)
-#define IM_ADD(T, a, b) IM_SEL (T, __CPROVER_uninterpreted_addf, __CPROVER_uninterpreted_addd) ((a), (b))
-#define IM_SUB(T, a, b) IM_SEL (T, __CPROVER_uninterpreted_subf, __CPROVER_uninterpreted_subd) ((a), (b))
-#define IM_MUL(T, a, b) IM_SEL (T, __CPROVER_uninterpreted_mulf, __CPROVER_uninterpreted_muld) ((a), (b))
-#define IM_DIV(T, a, b) IM_SEL (T, __CPROVER_uninterpreted_divf, __CPROVER_uninterpreted_divd) ((a), (b))
-#define IM_NEG(T, a) IM_SEL (T, __CPROVER_uninterpreted_negf, __CPROVER_uninterpreted_negd) ((a))
+#define IM_ADD(T, a, b) _Generic ((T) 0, float : __CPROVER_uninterpreted_addf ((float) (a), (float) (b)), double : __CPROVER_uninterpreted_addd ((double) (a), (double) (b)), default : ((a) + (b)))
+#define IM_SUB(T, a, b) _Generic ((T) 0, float : __CPROVER_uninterpreted_subf ((float) (a), (float) (b)), double : __CPROVER_uninterpreted_subd ((double) (a), (double) (b)), default : ((a) - (b)))
+#define IM_MUL(T, a, b) _Generic ((T) 0, float : __CPROVER_uninterpreted_mulf ((float) (a), (float) (b)), double : __CPROVER_uninterpreted_muld ((double) (a), (double) (b)), default : ((a) * (b)))
+#define IM_DIV(T, a, b) _Generic ((T) 0, float : __CPROVER_uninterpreted_divf ((float) (a), (float) (b)), double : __CPROVER_uninterpreted_divd ((double) (a), (double) (b)), default : ((a) / (b)))
+#define IM_NEG(T, a) _Generic ((T) 0, float : __CPROVER_uninterpreted_negf ((float) (a)), double : __CPROVER_uninterpreted_negd ((double) (a)), default : (-(a)))
 #else
 #define IM_ADD(T, a, b) ((a) + (b))
 #define IM_SUB(T, a, b) ((a) - (b))
